@@ -13,6 +13,7 @@ import (
 	"io"
 	"net/http"
 	"os"
+	"path/filepath"
 	"reflect"
 	"regexp"
 	"runtime"
@@ -70,6 +71,14 @@ func refUnmarshal(b bodySpec, v interface{}) error {
 
 func (p *progSpec) refUnmarshalFails(b bodySpec) [3]bool {
 	if p.UmCustom && b.UmErr != 0 {
+		switch b.UmOnly { // the custom functions fail for one target only, the others are decoded for real
+		case "res":
+			return [3]bool{true, refUnmarshal(b, &errT{}) != nil, refUnmarshal(b, &comT{}) != nil}
+		case "req":
+			return [3]bool{refUnmarshal(b, &okT{}) != nil, true, refUnmarshal(b, &comT{}) != nil}
+		case "com":
+			return [3]bool{refUnmarshal(b, &okT{}) != nil, refUnmarshal(b, &errT{}) != nil, true}
+		}
 		return [3]bool{true, true, true}
 	}
 	return [3]bool{refUnmarshal(b, &okT{}) != nil, refUnmarshal(b, &errT{}) != nil, refUnmarshal(b, &comT{}) != nil}
@@ -167,6 +176,7 @@ type execState struct {
 	hookErr   error
 	stubFault string
 	lastT     *toutSpec // the answer served last (the output writer's script)
+	closes    int
 	out       bytes.Buffer
 	cancel    context.CancelFunc
 	ctxCutAt  int // attempt in which the stub cancelled the context (-1: never)
@@ -360,6 +370,21 @@ func (w *scriptWriter) Write(p []byte) (int, error) {
 	return w.st.out.Write(p)
 }
 
+// an output that is also an io.Closer (like the file SetOutputFile opens)
+type scriptCloser struct{ scriptWriter }
+
+func (w *scriptCloser) Close() error {
+	w.st.closes++
+	if t := w.st.lastT; t != nil && t.B.CloseErr != 0 {
+		return mkErr(t.B.CloseErr)
+	}
+	return nil
+}
+
+// directory for SetOutputFile targets (under the run's output directory) and a counter for names
+var dlDir = "."
+var dlSeq int
+
 type marshalBody struct {
 	V int `json:"v"`
 }
@@ -417,21 +442,42 @@ func execute(p *progSpec, origin *realOrigin) (o obsT, res *okT, er *errT) {
 		})
 	}
 	if p.UmCustom {
-		fails := map[string]int{}
+		fails := map[string]bodySpec{}
 		for _, t := range p.allTouts() {
 			if t.B.UmErr != 0 {
-				fails[t.B.Body] = t.B.UmErr
+				fails[t.B.Body] = t.B
 			}
 		}
+		scripted := func(data []byte, v interface{}) error {
+			b, ok := fails[string(data)]
+			if !ok {
+				return nil
+			}
+			switch v.(type) {
+			case *okT:
+				if b.UmOnly != "" && b.UmOnly != "res" {
+					return nil
+				}
+			case *errT:
+				if b.UmOnly != "" && b.UmOnly != "req" {
+					return nil
+				}
+			case *comT:
+				if b.UmOnly != "" && b.UmOnly != "com" {
+					return nil
+				}
+			}
+			return mkErr(b.UmErr)
+		}
 		c.SetJsonUnmarshal(func(data []byte, v interface{}) error {
-			if tag := fails[string(data)]; tag != 0 {
-				return mkErr(tag)
+			if e := scripted(data, v); e != nil {
+				return e
 			}
 			return json.Unmarshal(data, v)
 		})
 		c.SetXmlUnmarshal(func(data []byte, v interface{}) error {
-			if tag := fails[string(data)]; tag != 0 {
-				return mkErr(tag)
+			if e := scripted(data, v); e != nil {
+				return e
 			}
 			return xml.Unmarshal(data, v)
 		})
@@ -536,8 +582,19 @@ func execute(p *progSpec, origin *realOrigin) (o obsT, res *okT, er *errT) {
 	if p.Unreplayable {
 		rq.SetBody(strings.NewReader("unreplayable"))
 	}
+	dlFile := ""
 	if p.Save {
-		rq.SetOutput(&scriptWriter{st})
+		switch p.SaveKind {
+		case "closer":
+			rq.SetOutput(&scriptCloser{scriptWriter{st}})
+		case "file":
+			dlSeq++
+			dlFile = filepath.Join(dlDir, fmt.Sprintf("dl_%d.bin", dlSeq))
+			rq.SetOutputFile(dlFile)
+			defer os.Remove(dlFile)
+		default:
+			rq.SetOutput(&scriptWriter{st})
+		}
 	}
 	for i := 0; i < nReq; i++ {
 		if p.Attempts[0].Req[i].Digest {
@@ -642,6 +699,10 @@ func execute(p *progSpec, origin *realOrigin) (o obsT, res *okT, er *errT) {
 	}
 	o.Log = append([]logEv{}, st.log...)
 	o.Output = st.out.String()
+	if dlFile != "" {
+		b, _ := os.ReadFile(dlFile)
+		o.Output = string(b)
+	}
 	if pkg {
 		o.Iters = 1
 	} else if p.ReqErr == 0 {
